@@ -141,7 +141,7 @@ def check(run):
     if hok:
         args = ["thorough"] if run.tier == "thorough" else []
         rc, out, err = run_conc(args, run.seed)
-        for l in out.splitlines():
+        for l in out.split("\n"):
             if l.strip().startswith("{"):
                 try:
                     r = json.loads(l)
